@@ -108,8 +108,8 @@ def nl_mul(ex, st, a, b, node):
     if isinstance(a, (int, float)) or isinstance(b, (int, float)):
         return a * b
     if is_intsort(a) and is_intsort(b):
-        used('int*int -> mulI (uninterpreted product with commutativity/monotonicity/unit axioms)')
-        return T.mulI(Z(a), Z(b))
+        used('int*int -> mulI (uninterpreted product of dimensions in canonical form, with monotonicity/unit axioms)')
+        return T.mul_canon(Z(a), Z(b))
     return to_real(a) * to_real(b)
 
 
@@ -1086,25 +1086,25 @@ def reshape(ex, st, a, shp, order, node):
     # patterns of teneva._reshape (order='F')
     if a.ndim == 3 and len(shp) == 2 and o == 'F':
         r1, n, r2 = a.shape
-        if _same(st, shp[0], T.mulI(Z(r1), Z(n))) and _same(st, shp[1], Z(r2)):
+        if _same(st, shp[0], T.mul_canon(r1, n)) and _same(st, shp[1], Z(r2)):
             t = T.unfL(a.t) if a.tag == 'core' and a.t is not None else None
             return VArr((shp[0], shp[1]), t, 'mat' if t is not None else None)
-        if _same(st, shp[0], Z(r1)) and _same(st, shp[1], T.mulI(Z(n), Z(r2))):
+        if _same(st, shp[0], Z(r1)) and _same(st, shp[1], T.mul_canon(n, r2)):
             t = T.unfR(a.t) if a.tag == 'core' and a.t is not None else None
             return VArr((shp[0], shp[1]), t, 'mat' if t is not None else None)
     if a.ndim == 2 and len(shp) == 3 and o == 'F':
         m_, c_ = a.shape
         s0, s1, s2 = shp
         if not isinstance(s2, int) or s2 != -1:
-            if _same(st, m_, T.mulI(Z(s0), Z(s1))) and _same(st, c_, Z(s2)):
+            if _same(st, m_, T.mul_canon(s0, s1)) and _same(st, c_, Z(s2)):
                 t = T.foldL(a.t, Z(s0), Z(s1)) if a.tag == 'mat' and a.t is not None else None
                 return VArr((s0, s1, s2), t, 'core' if t is not None else None)
         if not isinstance(s0, int) or s0 != -1:
-            if _same(st, m_, Z(s0)) and _same(st, c_, T.mulI(Z(s1), Z(s2))):
+            if _same(st, m_, Z(s0)) and _same(st, c_, T.mul_canon(s1, s2)):
                 t = T.foldR(a.t, Z(s1), Z(s2)) if a.tag == 'mat' and a.t is not None else None
                 return VArr((s0, s1, s2), t, 'core' if t is not None else None)
     if a.ndim == 1 and len(shp) == 3 and all(not (isinstance(x, int) and x == -1) for x in shp):
-        size = T.mulI(T.mulI(Z(shp[0]), Z(shp[1])), Z(shp[2]))
+        size = T.mul_canon(*shp)
         ex.oblige(st, 'call-pre', 'reshape-preserves-size', Z(a.shape[0]) == size, node)
         return VArr(tuple(shp), None, None, a.dtype)
     raise Unsupported(f'reshape pattern {a.shape} -> {shp} (order {o}) at line {node.lineno}')
@@ -1210,7 +1210,7 @@ def m_kron(ex, st, args, kwargs, node):
     if not (isinstance(a, VArr) and isinstance(b, VArr) and a.ndim == 2 and b.ndim == 2):
         raise Unsupported('np.kron pattern')
     used('np.kron(A, B) for matrices -> shape (rows A * rows B, cols A * cols B)')
-    mul = lambda x, y: x * y if isinstance(x, int) or isinstance(y, int) else T.mulI(Z(x), Z(y))
+    mul = lambda x, y: x * y if isinstance(x, int) and isinstance(y, int) else T.mul_canon(x, y)
     t = T.kron(a.t, b.t) if (a.tag == 'mat' and b.tag == 'mat' and a.t is not None and b.t is not None) else None
     return VArr((mul(a.shape[0], b.shape[0]), mul(a.shape[1], b.shape[1])), t, 'mat' if t is not None else None,
                 'i' if a.dtype == 'i' and b.dtype == 'i' else 'f')
